@@ -8,7 +8,9 @@ import time
 from typing import Callable, Dict, List, Optional
 
 VERIF = os.path.dirname(os.path.dirname(os.path.abspath(__file__)))
-EVIDENCE_DIR = os.path.join(VERIF, "evidence")
+# VF_EVIDENCE_DIR: development only (tools/seed_rerun.py evaluates seeded changes without touching the evidence
+# of the real tree); the registered commands never set it
+EVIDENCE_DIR = os.environ.get("VF_EVIDENCE_DIR") or os.path.join(VERIF, "evidence")
 REPLAY_DIR = os.path.join(EVIDENCE_DIR, "replays")
 KNOWN_FINDINGS = os.path.join(VERIF, "known_findings.jsonl")
 
